@@ -47,6 +47,14 @@ _PROBES = [
 ]
 
 
+# (name, minimum, maximum, expected output "product 5*5 (5*-3+5 mod product) % 1000")
+_RUN_PROBES = [
+    ("control_gmp_static_5_13", "5", "13", "5005 25 995"),
+    ("gmp_static_4294967280_4294967294", "4294967280", "4294967294", "4294967291 25 281"),   # one prime: 4294967291
+    ("gmp_static_2147483659_2147483659", "2147483659", "2147483659", "2147483659 25 649"),   # the prime 2^31 + 11
+]
+
+
 def _extra(ctx):
     """Negative compile probes: a non-prime compile-time characteristic must be rejected by the compiler.
     Auxiliary evidence only (not a run-time observation); an accepted probe is reported as a violation of kind 'refuse'."""
@@ -82,6 +90,44 @@ def _extra(ctx):
     ctx["info"]["compile_probes"] = info
     ctx["agg"]["counters"]["probe.compile_time_refusals"] = sum(1 for v in info.values() if not v["must_compile"] and not v["compiled"])
 
+    # Run probes: compile-time GMP ranges whose end points lie above 2^31.  Their prime list is built by a static initialiser, so a
+    # scan that never ends would hang a harness binary before its first case: each one is a program of its own, run under a timeout.
+    def run_one(pr):
+        name, lo, hi, want = pr
+        src = _os.path.join(d, name + ".cpp")
+        exe = _os.path.join(d, name + ".bin")
+        with open(src, "w") as f:
+            f.write("#include <climits>\n#include <iostream>\n#include <gudhi/Fields/Multi_field.h>\n"
+                    "int main() { typedef Gudhi::persistence_fields::Multi_field_element<%su, %su> F; F x(mpz_class(5)), y(mpz_class(-3));\n"
+                    "  std::cout << F::get_characteristic() << ' ' << (x * x).get_value() << ' ' << (x * y + x).get_value() %% 1000 << std::endl; return 0; }\n" % (lo, hi))
+        p = _sp.run(["clang++-14", "-std=gnu++17", "-O1", "-DNDEBUG"] + ctx["includes"] + [src, "-o", exe, "-lgmpxx", "-lgmp"], stdout=_sp.PIPE, stderr=_sp.STDOUT)
+        if p.returncode != 0:
+            return name, "does_not_compile", p.stdout.decode("utf-8", "replace")[-600:]
+        try:
+            q = _sp.run([exe], stdout=_sp.PIPE, stderr=_sp.STDOUT, timeout=10)
+        except _sp.TimeoutExpired:
+            return name, "never_returns", "no result within 10 s"
+        out = q.stdout.decode("utf-8", "replace").strip()
+        return name, ("ok" if q.returncode == 0 and out == want else "wrong"), out[-300:]
+
+    with _cf.ThreadPoolExecutor(max_workers=3) as ex:
+        rres = list(ex.map(run_one, _RUN_PROBES))
+    rinfo = {}
+    for i, (name, verdict, tail) in enumerate(rres):
+        rinfo[name] = verdict
+        if verdict == "ok":
+            continue
+        if name.startswith("control"):
+            raise RuntimeError("C10 run probe control %s: %s\n%s" % (name, verdict, tail))
+        check, sig = {"never_returns": ("terminates", "form=static_initialisation,never_returns"),
+                      "does_not_compile": ("accept", "form=static_assert,valid_refused"),
+                      "wrong": ("characteristic", "form=product_of_the_primes_of_the_range")}[verdict]
+        ctx["agg"]["viol"].append({"kind": "oracle", "unit": "run_probe", "config": "run_probe", "case": i, "check": check,
+                                   "sig": "class=Multi_field_element," + sig + ",maximum=above_2^31", "detail": name + ": " + verdict + "\n" + tail,
+                                   "history": name})
+    ctx["info"]["run_probes"] = rinfo
+    ctx["agg"]["counters"]["probe.static_ranges_above_2p31"] = len(rres)
+
 
 _GMP = ["-lgmpxx", "-lgmp"]
 
@@ -94,7 +140,19 @@ SPEC = {
             "with the other operands running over the complete window [-3P,3P] (exhaustive configs, seed independent), or (class, prime / range) "
             "with boundary-directed + seeded random operands (0,1,P-1,P,kP+-d, machine-word limits INT_MIN..ULONG_MAX, multiples of the primes of "
             "the range, 2^100 for GMP), or one refused characteristic. non-trivial = block with >= 20 evaluations of which at least one needed a "
-            "reduction / an inverse / a partial inverse (or, for refusals, a composite / prime-free range), distinct by hash(block description, seed salt)",
+            "reduction / an inverse / a partial inverse (or, for refusals, a composite / prime-free range), distinct by hash(block description, seed salt). "
+            "Unit 'types': the templated classes are also instantiated with the element types unsigned long / unsigned short / unsigned char at "
+            "p in {7, 251, 257, 32771, 65521} (p <= max of the type) and small multi-field products 105 .. 6.1e17 (below / above 2^16, 2^31, 2^32), and the "
+            "default element type is driven with short, unsigned short, signed / unsigned char, long long, unsigned long long and __int128 in every "
+            "conversion / mixed operator (signatures carry ',element=<type>' resp. 'type=<integer type>'). Object state (configs *_state): "
+            "init(valid), block, then (0) init(invalid) must throw and a reduced block is judged in the OLD field without re-initialising "
+            "(signatures end in ',refused_on_live_object'), (1) init(other valid), block, init(first), block, (2) move construction / swap / "
+            "copy and move assignment / copy construction of the three operator classes, each followed by a block on the moved-to object and a "
+            "re-initialisation of the moved-from one. Range end points (configs *_bounds, ty_small): minimum below 2 and negative (int "
+            "interfaces), maximum INT_MAX, 2^31+11, 4294967294, UINT_MAX (unsigned interfaces); every such initialisation (and every table "
+            "construction of unit 'types') first runs in a forked child under a CPU-time limit, so that one that never returns is ONE violation "
+            "(check 'terminates'); a valid range that is refused is check 'accept'; compile-time GMP ranges above 2^31 are separate programs run "
+            "under a timeout (run probes)",
     "assumptions": [
         "documented preconditions respected: signed machine-integer operands are only passed in a type that can hold the characteristic; the fused "
         "methods of Zp_field_operators / Multi_field_operators_with_small_characteristics are documented 'not overflow safe': UNREDUCED triples "
@@ -102,24 +160,37 @@ SPEC = {
         "operands for every accepted characteristic / range whose product fits the element type); partial-inverse arguments Q are "
         "sub-products of the range (Q >= 1)",
         "inverse of 0 in a single-prime field is not requested; (partial) inverses of the multi-field operator classes are requested for reduced operands only",
-        "Field_Zp and pcoh::Multi_field receive reduced operands only (as the cohomology engine does), one init() per object",
+        "Field_Zp and pcoh::Multi_field receive reduced operands only (as the cohomology engine does); re-initialisation of a live object is "
+        "exercised in zp_state / mg_state; pcoh::Multi_field never refuses (known finding), so 'refused on a live object' does not apply to it",
         "a prime above Field_Zp's documented maximum 46337 may either be refused or handled exactly",
-        "only the default Unsigned_integer_type (unsigned int) of the templated classes is instantiated",
+        "element types other than unsigned int: unsigned long, unsigned short, unsigned char (run-time classes: all members; compile-time classes "
+        "Zp_field_element<p,E> / Multi_field_element_with_small_characteristics<lo,hi,E>: constructors, conversions, operators, comparisons only, "
+        "because get_inverse / get_partial_inverse / get_*_identity do not compile with a non-default element type); not exercised: "
+        "Zp_field_element<p> with p > 2^31, small multi-field products in (2^63, 2^64), get_value / operator arguments of the operator classes "
+        "that are wider than the element type (silently narrowed at the call); the shared small class only gets ranges whose squared product fits "
+        "its element type (documented)",
+        "a range whose minimum is below 2 (or negative) denotes the primes of [2, maximum] ('the characteristics will be all prime numbers in the "
+        "given interval'); the watchdog limits (3 s + p^2 / 2e8 s of CPU for a table of size p, 4 s for a range scan) are ~3x what the "
+        "repaired code needs under ASan",
         "trusted: the oracle in harness/c10_fields/c10_common.h (__int128 arithmetic, trial-division primes), GMP, libstdc++",
     ],
     "units": [
         {"name": "zp", "src": ["c10_zp.cpp"], "variant": "asan", "chunk": 1,
          "configs": {"zp_exhaustive": {"quick": ZPQ, "thorough": ZPT}, "zp_boundary": {"quick": 18, "thorough": 72},
-                     "zp_random_prime": {"quick": 120, "thorough": 3000}, "zp_refuse": {"quick": 320, "thorough": 2000}}},
+                     "zp_random_prime": {"quick": 120, "thorough": 3000}, "zp_refuse": {"quick": 320, "thorough": 2000}, "zp_state": {"quick": 360, "thorough": 3600}}},
         {"name": "zpc", "src": ["c10_zpc_small.cpp", "c10_zpc_big.cpp"], "variant": "asan", "chunk": 1,
          "configs": {"zpc_exhaustive": {"quick": ZCQ, "thorough": ZCT}, "zpc_boundary": {"quick": 11, "thorough": 110}}},
         {"name": "msmall", "src": ["c10_msmall.cpp"], "variant": "asan", "chunk": 4,
          "configs": {"ms_exhaustive": {"quick": MSQ, "thorough": MST}, "ms_fixed": {"quick": 13, "thorough": 130},
                      "ms_all_ranges": {"quick": 300, "thorough": _ALL_SETS}, "ms_random": {"quick": 300, "thorough": 5000},
-                     "ms_refuse": {"quick": 150, "thorough": 1000}}},
+                     "ms_refuse": {"quick": 150, "thorough": 1000}, "ms_state": {"quick": 240, "thorough": 2400}, "ms_bounds": {"quick": 12, "thorough": 48}}},
         {"name": "mgmp", "src": ["c10_mgmp.cpp"], "variant": "asan", "libs": _GMP, "chunk": 4,
          "configs": {"mg_exhaustive": {"quick": MGQ, "thorough": MGT}, "mg_fixed": {"quick": 40, "thorough": 400},
-                     "mg_random": {"quick": 200, "thorough": 3000}, "mg_refuse": {"quick": 160, "thorough": 1000}}},
+                     "mg_random": {"quick": 200, "thorough": 3000}, "mg_refuse": {"quick": 160, "thorough": 1000}, "mg_state": {"quick": 210, "thorough": 2100},
+                     "mg_bounds": {"quick": 22, "thorough": 88}}},
+        {"name": "types", "src": ["c10_types_rt.cpp", "c10_types_ct.cpp", "c10_types_small.cpp"], "variant": "asan", "chunk": 1,
+         "configs": {"ty_zp_rt": {"quick": 32, "thorough": 64}, "ty_zp_ct": {"quick": 16, "thorough": 64}, "ty_small": {"quick": 26, "thorough": 104},
+                     "ty_small_ext": {"quick": 8, "thorough": 32}}},
         {"name": "threads", "src": ["c10_tsan.cpp"], "variant": "tsan", "chunk": 2,
          "configs": {"threads": {"quick": 16, "thorough": 64}}},
         # thorough only: the bulk of the exhaustive sub-spaces again under -O2 + UBSan (other code generation, signed overflow / shift checks)
@@ -131,6 +202,8 @@ SPEC = {
          "configs": {"ms_exhaustive": {"thorough": MST}, "ms_all_ranges": {"thorough": _ALL_SETS}, "ms_random": {"thorough": 5000}, "ms_fixed": {"thorough": 52}}},
         {"name": "mgmp_u", "src": ["c10_mgmp.cpp"], "variant": "ubsan", "libs": _GMP, "chunk": 4, "tiers": ["thorough"],
          "configs": {"mg_exhaustive": {"thorough": MGT}, "mg_fixed": {"thorough": 200}, "mg_random": {"thorough": 2000}}},
+        {"name": "types_u", "src": ["c10_types_rt.cpp", "c10_types_ct.cpp", "c10_types_small.cpp"], "variant": "ubsan", "chunk": 1, "tiers": ["thorough"],
+         "configs": {"ty_zp_rt": {"thorough": 32}, "ty_zp_ct": {"thorough": 32}, "ty_small": {"thorough": 52}, "ty_small_ext": {"thorough": 16}}},
     ],
     "floors": {
         "quick": {
@@ -156,6 +229,15 @@ SPEC = {
             "refuse.composite": 150, "refuse.range_without_prime": 50, "refuse.single_composite": 50, "refuse.not_greater_than_1": 15,
             "refuse.prime_above_documented_maximum": 2,
             "threads.concurrent_runs": 16, "probe.compile_time_refusals": 13,
+            # element-type / integer-type instantiations (unit types), object-state scenarios, range end points
+            "types.element_ulong": 15, "types.element_ushort": 10, "types.element_uchar": 4, "types.element_uint": 11,
+            "types.twice_modulus_exceeds_element_type": 5, "types.modulus_above_2p32": 2, "types.limited_api_compile_time_class": 10,
+            "op.convert.short": 2500, "op.convert.ushort": 2300, "op.convert.schar": 800, "op.convert.uchar": 1300, "op.convert.llong": 6000,
+            "op.convert.ullong": 3900, "op.convert.int128": 6800, "state.sum_wraps_element_type": 45000, "state.operand_above_2p32": 55000,
+            "op.init_under_watchdog": 44, "state.scenario.refused_on_live_object": 135, "state.scenario.reinitialisation": 135,
+            "state.scenario.move_swap_assign": 135, "state.refused_above_live_characteristic": 40, "state.refused_below_live_characteristic": 10,
+            "bounds.minimum_below_2": 12, "bounds.range_end_above_2p31": 4, "bounds.range_end_INT_MAX": 3, "probe.static_ranges_above_2p31": 3,
+            "state.ops_class_product_above_2^31": 25, "state.ops_class_product_above_2^16": 120,
             "_distinct_nontrivial": 3000,
         },
         "thorough": {
@@ -179,6 +261,15 @@ SPEC = {
             "refuse.composite": 900, "refuse.range_without_prime": 400, "refuse.single_composite": 300, "refuse.not_greater_than_1": 60,
             "refuse.prime_above_documented_maximum": 3,
             "threads.concurrent_runs": 64, "probe.compile_time_refusals": 13,
+            # element-type / integer-type instantiations (unit types), object-state scenarios, range end points
+            "types.element_ulong": 15, "types.element_ushort": 10, "types.element_uchar": 4, "types.element_uint": 11,
+            "types.twice_modulus_exceeds_element_type": 5, "types.modulus_above_2p32": 2, "types.limited_api_compile_time_class": 10,
+            "op.convert.short": 2500, "op.convert.ushort": 2300, "op.convert.schar": 800, "op.convert.uchar": 1300, "op.convert.llong": 6000,
+            "op.convert.ullong": 3900, "op.convert.int128": 6800, "state.sum_wraps_element_type": 45000, "state.operand_above_2p32": 55000,
+            "op.init_under_watchdog": 44, "state.scenario.refused_on_live_object": 135, "state.scenario.reinitialisation": 135,
+            "state.scenario.move_swap_assign": 135, "state.refused_above_live_characteristic": 40, "state.refused_below_live_characteristic": 10,
+            "bounds.minimum_below_2": 12, "bounds.range_end_above_2p31": 4, "bounds.range_end_INT_MAX": 3, "probe.static_ranges_above_2p31": 3,
+            "state.ops_class_product_above_2^31": 25, "state.ops_class_product_above_2^16": 120,
             "_distinct_nontrivial": 22000,
         },
     },
@@ -200,11 +291,14 @@ SPEC = {
                 "small multi-field range. Sampled with boundary-directed operands: primes 251, 257, 32749, 46337, 65519, 65521, random primes < 2^16, "
                 "products above 2^31 and above 2^64, one-prime and prime-free ranges. Non-prime characteristics (0, 1, composites incl. Carmichael numbers "
                 "and prime squares, prime-free ranges, min > max) must throw; compile-time refusals are checked by negative compile probes. 8 threads using "
-                "their own elements of one type run under ThreadSanitizer. Held on what was observed (~4e8 evaluations quick, ~2e10 thorough), not a proof.",
+                "their own elements of one type run under ThreadSanitizer. Also: element types unsigned long / short / char, integer types short .. __int128, "
+                "refused characteristic on a live object, valid -> valid re-initialisation, move / swap / assignment of the operator classes, range end "
+                "points below 2 and around 2^31 / 2^32 under a CPU watchdog. Held on what was observed (~4e8 evaluations quick, ~2e10 thorough), not a proof.",
         "note": "trusted: harness oracle (c10_common.h: __int128, trial division), GMP, libstdc++. Preconditions respected: signed integer types able to hold "
                 "the characteristic; fused methods documented 'not overflow safe': unreduced operands only with word-sized exact values, reduced operands always; "
-                "Q a sub-product of the range; no inverse of 0 in a prime field; cohomology classes get reduced operands; only the default "
-                "unsigned int element type is instantiated; primes >= 2^16 are not tried for the run-time Z_p classes (O(p^2) table construction).",
+                "Q a sub-product of the range; no inverse of 0 in a prime field; cohomology classes get reduced operands; compile-time classes with a "
+                "non-default element type only through the members that compile; primes >= 2^16 are not tried for the run-time Z_p classes "
+                "(O(p^2) table construction); initialisations that may not return run in a forked child under a CPU limit.",
         "technique": "runtime monitoring: exhaustive small-field enumeration + boundary-directed/random operands against an exact-integer oracle, under "
                      "AddressSanitizer/UBSan/ThreadSanitizer; negative compile probes for static_assert refusals",
     },
